@@ -24,7 +24,7 @@ func (b *vMainBrowser) seedSession(email string, age time.Duration, tokLen int) 
 	exp := time.Now().Add(time.Hour)
 	claims := vClaims(email, map[string]interface{}{"pad": strings.Repeat("p", tokLen/2)})
 	s := &sessionsapi.SessionState{CreatedAt: &created, ExpiresOn: &exp, Email: email, User: email,
-		AccessToken: "at0-" + strings.Repeat("a", tokLen), IDToken: vJWT(vKeyRSA, "RS256", claims), RefreshToken: "rt0"}
+		AccessToken: "at0-" + vIncompressible(tokLen), IDToken: vJWT(vKeyRSA, "RS256", claims), RefreshToken: "rt0"}
 	rw := httptest.NewRecorder()
 	req := httptest.NewRequest("GET", b.origin.String()+"/", nil)
 	if err := b.e.p.sessionStore.Save(rw, req, s); err != nil {
@@ -258,4 +258,23 @@ func vSignOutHistory(t *testing.T, out *vEmitter, name string, redis bool, domai
 		out.Case("sign-out-ticket", true, vL(vBool(success), key, vStrs(dels)),
 			vL("sign_out_ticket", vTable(vMacsFor(o.Secret, []string{o.Name}, sentCookies)), vCfgMain(&o), vS(host), vNVsx(sentCookies), vI(t0), vI(t1), vBool(fault == vNoFault)))
 	}
+}
+
+
+// vIncompressible: n characters that lz4 cannot shrink (the session encoding compresses before encrypting, so
+// a repeated character would never make a session large).  Short lengths keep the old, readable filler.
+func vIncompressible(n int) string {
+	if n < 200 {
+		return strings.Repeat("a", n)
+	}
+	raw := make([]byte, n)
+	x := uint64(0x9E3779B97F4A7C15) ^ uint64(n)
+	const al = "ABCDEFGHIJKLMNOPQRSTUVWXYZabcdefghijklmnopqrstuvwxyz0123456789-_"
+	for i := range raw {
+		x ^= x << 13
+		x ^= x >> 7
+		x ^= x << 17
+		raw[i] = al[x&63]
+	}
+	return string(raw)
 }
